@@ -782,52 +782,11 @@ func (e *Env) stripVendorAnchored() {
 	e.Run.Check("R-RESOLVE", "stripVendor strips up to the last vendor element", e.Prog.Pos(fd.Pos()), usesLast && n > 0, "the effective import path starts after the final vendor element: the position must come from strings.LastIndex")
 }
 
-// RResolverClauses: the necessary clauses of the two decorator resolvers are present.
+// RResolverClauses: the two decorator resolvers and the goast import-table builder, decided as
+// functions of their inputs (see checkReturns, goastImports).
 func (e *Env) RResolverClauses() {
-	type clause struct{ what, text string }
-	check := func(pkgPath, recv, fn string, clauses []clause) {
-		pkg := e.Prog.Pkg(pkgPath)
-		c := schema.CtxFor(e.Prog, pkgPath)
-		fd := load.FuncDecl(pkg, recv, fn)
-		if fd == nil || fd.Body == nil {
-			e.Run.Violation("R-RESOLVER", recv+"."+fn+" exists", "", "missing")
-			return
-		}
-		var all []string
-		var walk func(list []ast.Stmt)
-		walk = func(list []ast.Stmt) {
-			for _, st := range list {
-				all = append(all, stmtNorm(c, st))
-			}
-		}
-		walk(fd.Body.List)
-		ast.Inspect(fd.Body, func(n ast.Node) bool {
-			switch b := n.(type) {
-			case *ast.BlockStmt:
-				if b != fd.Body {
-					walk(b.List)
-				}
-			case *ast.CaseClause:
-				walk(b.Body)
-				for _, x := range b.List {
-					all = append(all, "case "+c.ExprStr(x))
-				}
-			}
-			return true
-		})
-		text := strings.Join(all, " ;; ")
-		for _, cl := range clauses {
-			e.Run.Check("R-RESOLVER", strings.TrimPrefix(pkgPath, load.ModPath+"/decorator/resolver/")+"."+fn+": "+cl.what, e.Prog.Pos(fd.Pos()), strings.Contains(text, cl.text), "clause `"+cl.text+"` not found")
-		}
-	}
 	e.resolveIdentReturns()
-	check(load.PkgGoast, "DecoratorResolver", "imports", []clause{
-		{"dot-imports are refused", `fmt.Errorf("goast.DecoratorResolver unsupported dot-import found for %s", path)`},
-		{"two imports under one name are refused", `if p,ok := imports[name]; ok { outer = fmt.Errorf(`},
-		{"cgo import skipped", `if path == "C" { return false; }`},
-		{"unnamed import: name from the package-name resolver", "r.RestorerResolver.ResolvePackage(path)"},
-		{"errors are returned, not swallowed", "if outer != nil { return nil,outer; }"},
-	})
+	e.goastImports()
 	// the dot-import refusal is tied to the name "." (switch arm or comparison)
 	pkgG := e.Prog.Pkg(load.PkgGoast)
 	cG := schema.CtxFor(e.Prog, load.PkgGoast)
@@ -1019,4 +978,131 @@ func (e *Env) checkReturnsZ(rule string, c *schema.Ctx, fd *ast.FuncDecl, label,
 		e.Run.Check(rule, label+": "+w.what, e.Prog.Pos(fd.Pos()), eq,
 			pair+" is returned under `"+got+"`; specified: `"+w.cond+"`")
 	}
+}
+
+// goastImports: the import-table builder of the goast resolver, decided on path conditions.
+//   - as a function: the cached table when there is one; otherwise (nil, outer) exactly when a
+//     refusal was recorded, else the new table;
+//   - in the *ast.ImportSpec arm of the scan: the one store into the table is unreachable for
+//     the cgo pseudo-import, for a name that is already in the table, and after a failed
+//     package-name resolution; the duplicate refusal is recorded exactly under the presence test;
+//     the resolver is asked with the import path and its error is recorded.
+func (e *Env) goastImports() {
+	pkg := e.Prog.Pkg(load.PkgGoast)
+	c := schema.CtxFor(e.Prog, load.PkgGoast)
+	fd := load.FuncDecl(pkg, "DecoratorResolver", "imports")
+	if fd == nil || fd.Body == nil {
+		e.Run.Violation("R-RESOLVER", "goast.imports exists", "", "missing")
+		return
+	}
+	e.checkReturnsZ("R-RESOLVER", c, fd, "goast.imports", "∅", []wantReturn{
+		{what: "a cached table is returned as it is", result: "r.files[file]", cond: "ok(r.files[file])"},
+		{what: "a recorded refusal is returned, not swallowed", result: "nil", err: "outer", cond: "!ok(r.files[file]) && outer != nil"},
+		{what: "otherwise the new table", result: "imports", cond: "!ok(r.files[file]) && outer == nil"},
+	}, "")
+	// the scan callback
+	var lit *ast.FuncLit
+	ast.Inspect(fd.Body, func(n ast.Node) bool {
+		if call, ok := n.(*ast.CallExpr); ok && funcKey(c.Callee(call)) == "go/ast.Inspect" && len(call.Args) == 2 {
+			lit, _ = call.Args[1].(*ast.FuncLit)
+		}
+		return true
+	})
+	if lit == nil {
+		e.Run.Violation("R-RESOLVER", "goast.imports scans the file with ast.Inspect and a literal callback", e.Prog.Pos(fd.Pos()), "not found")
+		return
+	}
+	var arm *ast.CaseClause
+	ast.Inspect(lit.Body, func(n ast.Node) bool {
+		if cc, ok := n.(*ast.CaseClause); ok && len(cc.List) == 1 && c.ExprStr(cc.List[0]) == "*ImportSpec" {
+			arm = cc
+		}
+		return true
+	})
+	if arm == nil {
+		e.Run.Violation("R-RESOLVER", "goast.imports: the scan has an *ast.ImportSpec arm", e.Prog.Pos(lit.Pos()), "missing")
+		return
+	}
+	undo := c.InstallReachingIn(lit.Body)
+	defer undo()
+	type asg struct {
+		lhs, rhs, cond string
+		pos            token.Pos
+	}
+	var asgs []asg
+	undecided := false
+	for _, st := range arm.Body {
+		ast.Inspect(st, func(n ast.Node) bool {
+			as, ok := n.(*ast.AssignStmt)
+			if !ok || len(as.Lhs) != len(as.Rhs) || as.Tok == token.DEFINE {
+				return true
+			}
+			for i, l := range as.Lhs {
+				cond, okc := pathCond(c, arm.Body, as)
+				if !okc {
+					undecided = true
+				}
+				if cond == "" {
+					cond = "true"
+				}
+				asgs = append(asgs, asg{c.ExprStr(l), c.ExprStr(as.Rhs[i]), cond, as.Pos()})
+			}
+			return true
+		})
+	}
+	if undecided {
+		e.Run.Undecided("R-RESOLVER", "goast.imports: ImportSpec arm", e.Prog.Pos(arm.Pos()), "path condition of an assignment not computable")
+		return
+	}
+	const P = `mustUnquote(node.Path.Value)`
+	const RP = `r.RestorerResolver.ResolvePackage(` + P + `)`
+	implies := func(cond, not string) (bool, bool) { return unsatWith(cond, not) }
+	var store *asg
+	nStores := 0
+	for i := range asgs {
+		if strings.HasPrefix(asgs[i].lhs, "imports[") {
+			nStores++
+			store = &asgs[i]
+		}
+	}
+	if nStores != 1 {
+		e.Run.Violation("R-RESOLVER", "goast.imports: one store into the table per import spec", e.Prog.Pos(arm.Pos()), fmt.Sprintf("%d stores", nStores))
+		return
+	}
+	pos := e.Prog.Pos(store.pos)
+	e.Run.Check("R-RESOLVER", "goast.imports: the table maps the name to the unquoted import path", pos, store.lhs == "imports[name]" && store.rhs == P, store.lhs+" = "+store.rhs)
+	for _, ob := range []struct{ what, not string }{
+		{"the cgo pseudo-import is never entered", P + ` == "C"`},
+		{"a name already in the table is never overwritten", `ok(imports[name])`},
+		{"nothing is entered after the package-name resolver failed", `res1(` + RP + `) != nil && name == ""`},
+		{"a dot-import is never entered", `name == "."`},
+		{"a blank import is never entered", `name == "_"`},
+	} {
+		okI, dec := implies(store.cond, ob.not)
+		if !dec {
+			e.Run.Undecided("R-RESOLVER", "goast.imports: "+ob.what, pos, "condition not propositional: "+store.cond)
+			continue
+		}
+		e.Run.Check("R-RESOLVER", "goast.imports: "+ob.what, pos, okI, "the store is reachable under `"+store.cond+"`, which does not exclude `"+ob.not+"`")
+	}
+	// refusals recorded in outer
+	dup, res := false, false
+	for _, a := range asgs {
+		if a.lhs != "outer" {
+			continue
+		}
+		if strings.HasPrefix(a.rhs, "fmt.Errorf(") {
+			if okI, dec := implies(a.cond, `!ok(imports[name])`); dec && okI {
+				dup = true
+			}
+		}
+		if a.rhs == "res1("+RP+")" {
+			if okI, dec := implies(a.cond, `res1(`+RP+`) == nil`); dec && okI {
+				res = true
+			}
+		}
+	}
+	e.Run.Check("R-RESOLVER", "goast.imports: two imports under one name are refused", e.Prog.Pos(arm.Pos()), dup, "no `outer = fmt.Errorf(…)` under the presence test of imports[name]")
+	e.Run.Check("R-RESOLVER", "goast.imports: an unnamed import takes its name from the package-name resolver, whose error is recorded", e.Prog.Pos(arm.Pos()), res,
+		"no `outer = <error of "+RP+">` under that error being non-nil")
 }
